@@ -374,6 +374,14 @@ def check(h, reason):
         S.probe("sigint-before-failure-reported")
         return v, shape, True
     interrupted_too = sig is not None and sig["seq"] < ended["seq"]
+    if expect_fail and interrupted_too:
+        # ... but only if the interrupt came while the failure could still be on its way out: a daemon that is
+        # still up seconds after the failure "stays up idle" and merely got stopped by the interrupt
+        fail_ev = next((e for e in ev if e["kind"] in ("raise", "return") or e["kind"] == "error-log"), None)
+        t_fail = fail_ev["t"] if fail_ev is not None else 0.0
+        if sig["t"] - t_fail > 3.0:
+            V("C13/up-and-idle/%s/%s" % (fkind or "truncated", what), "fault %s/%s at t=%.2f: the daemon was still up %.2fs later when the SIGINT stopped it" % (fkind, what, t_fail, sig["t"] - t_fail))
+            return v, shape, True
     if expect_fail:
         if status == 0 and interrupted_too:
             # failure and interrupt both arrived before the daemon was down: "only a KeyboardInterrupt ends the
